@@ -209,6 +209,11 @@ class OptimizationAbstract(ABC, Generic[T]):
         if not self._config:
             raise ValueError("Invalid configuration")
 
+        # every run starts from a clean book-keeping state, whatever the instance did before
+        self._current_cycle = 1
+        self._errors = []
+        self._error_diffs = []
+
         np.random.seed(task.seed)
         evolution: list[Population] = []
 
